@@ -2,6 +2,7 @@
 MUST-victim-counted, MUST-reject-touches-nothing, MUST-admit-or-remove, CMP-oversize, CMP-capacity,
 CMP-evict, SCAN-from-front, MUST-recency, MUST-evict."""
 from .core import RuleResult, CheckFailure
+from .roles import CHAN_RECV
 from .roles import named
 from .kernel import norm
 from .roles import get_roles, HASHMAP_REMOVE, DASHMAP_REMOVE
@@ -532,9 +533,9 @@ def rule_must_recency(ctx):
     # sync: read consumer + update arm
     if R.maintenance:
         cons = [x for x in prog.reachable_from(sorted(R.maintenance)) if x.startswith('sync::') and prog.bodies[x].kind != 'closure' and
-                'crossbeam_channel::Receiver::try_recv' in R.ext_calls[x]]
+                bool(CHAN_RECV & set(R.ext_calls[x]))]
         for c in sorted(cons):
-            is_read = any('ReadOp' in t.get('self_ty', {}).get('s', '') for _, t in prog.bodies[c].calls() if prog.call_targets(prog.bodies[c], t)[1] == 'crossbeam_channel::Receiver::try_recv')
+            is_read = any('ReadOp' in t.get('self_ty', {}).get('s', '') for _, t in prog.bodies[c].calls() if prog.call_targets(prog.bodies[c], t)[1] in CHAN_RECV)
             if not is_read:
                 continue
             for p in _run(ctx, c, inline_depth=3, loop_visits=2):
@@ -565,7 +566,7 @@ def rule_must_recency(ctx):
         EI = 'common::concurrent::entry_info::EntryInfo'
         ts_writers = {x for x in prog.bodies if ('write', EI, 'last_accessed') in ctx.eff.direct.get(x, ())}
         for c in sorted(cons):
-            is_read = any('ReadOp' in t.get('self_ty', {}).get('s', '') for _, t in prog.bodies[c].calls() if prog.call_targets(prog.bodies[c], t)[1] == 'crossbeam_channel::Receiver::try_recv')
+            is_read = any('ReadOp' in t.get('self_ty', {}).get('s', '') for _, t in prog.bodies[c].calls() if prog.call_targets(prog.bodies[c], t)[1] in CHAN_RECV)
             if not is_read:
                 continue
             for p in _run(ctx, c, inline_depth=1, loop_visits=2, inline_pred=lambda n_, bb, d: False):
